@@ -92,7 +92,7 @@ func (st *State) dispatchCall(fr *Frame, in ssa.CallInstruction, c *ssa.CallComm
 				return
 			}
 			if st.e.isSkippedIface(c) {
-				st.e.note(u.name, "skipped", "invoke "+typeShort(c.Value.Type())+"."+c.Method.Name())
+				st.e.note(u.name, "skipped", "invoke "+typeKey(c.Value.Type())+"."+c.Method.Name())
 				k(st, st.freshResult(c.Signature().Results()))
 				return
 			}
@@ -100,7 +100,7 @@ func (st *State) dispatchCall(fr *Frame, in ssa.CallInstruction, c *ssa.CallComm
 				k(st, r)
 				return
 			}
-			st.unmodelled(fr, in, "invoke "+typeShort(c.Value.Type())+"."+c.Method.Name(), c.Signature().Results(), k)
+			st.unmodelled(fr, in, "invoke "+typeKey(c.Value.Type())+"."+c.Method.Name(), c.Signature().Results(), k)
 			return
 		}
 	} else {
@@ -196,7 +196,7 @@ func (st *State) unmodelled(fr *Frame, in ssa.CallInstruction, name string, res 
 // pureExternal lists dependency functions that neither read nor write the
 // program's heap in a way that matters (assumed; listed in evidence).
 func pureExternal(name string) bool {
-	for _, p := range []string{"fmt.", "errors.", "strings.", "strconv.", "math.", "time.", "unicode.", "regexp.", "sort.", "bytes.", "encoding/", "hash/", "(*regexp.", "(time.", "(*strings.", "google.golang.org/grpc/status.", "google.golang.org/grpc/codes.", "(google.golang.org/grpc/codes.", "github.com/google/uuid.", "(github.com/google/uuid.", "google.golang.org/protobuf/types/known/", "(*google.golang.org/protobuf/types/known/", "context.", "(*context.", "invoke context.Context."} {
+	for _, p := range []string{"fmt.", "errors.", "strings.", "strconv.", "math.", "time.", "unicode.", "regexp.", "sort.", "bytes.", "encoding/", "hash/", "(*regexp.", "(time.", "(*strings.", "google.golang.org/grpc/status.", "google.golang.org/grpc/codes.", "(google.golang.org/grpc/codes.", "github.com/google/uuid.", "(github.com/google/uuid.", "google.golang.org/protobuf/types/known/", "(*google.golang.org/protobuf/types/known/", "context.", "(*context.", "invoke context.Context.", "invoke hash.", "invoke io."} {
 		if strings.HasPrefix(name, p) {
 			return true
 		}
